@@ -1161,3 +1161,111 @@ Proof.
 Qed.
 
 End V1.
+
+(* ========================================================================================== *)
+(* 10. the executable well-formedness check is sound                                           *)
+(* ========================================================================================== *)
+
+Lemma nodup_namesb_sound ns : nodup_namesb ns = true -> NoDup ns.
+Proof.
+  induction ns as [|n ns IH]; cbn [nodup_namesb]; intros H; [constructor|].
+  apply andb_true_iff in H. destruct H as [H1 H2]. constructor; [|apply IH; exact H2].
+  intros C. apply negb_true_iff in H1.
+  assert (E : existsb (bytes_eqb n) ns = true)
+    by (apply existsb_exists; exists n; split; [exact C|apply bytes_eqb_refl]).
+  congruence.
+Qed.
+
+Lemma name_okb_sound n : name_okb n = true -> name_ok n.
+Proof.
+  unfold name_okb, name_ok. destruct n as [|c n]; [discriminate|]. intros H.
+  split; [discriminate|]. intros C. apply negb_true_iff in H.
+  assert (E : existsb (Ascii.eqb slash) (c :: n) = true)
+    by (apply existsb_exists; exists slash; split; [exact C|apply Ascii.eqb_refl]).
+  congruence.
+Qed.
+
+Theorem wf_nodeb_sound t : wf_nodeb t = true -> wf_node t.
+Proof.
+  induction t as [d|es IH] using node_ind'; intros H; [exact I|].
+  cbn [wf_nodeb] in H. apply andb_true_iff in H. destruct H as [H H3].
+  apply andb_true_iff in H. destruct H as [H1 H2]. apply wf_Dir. split; [split|].
+  - apply nodup_namesb_sound. exact H1.
+  - apply Forall_forall. intros n Hn. apply name_okb_sound.
+    rewrite forallb_forall in H2. apply H2. exact Hn.
+  - clear H1 H2. induction es as [|e es IHes]; [constructor|].
+    apply andb_true_iff in H3. destruct H3 as [He Hes]. inversion IH; subst.
+    constructor; [auto|apply IHes; assumption].
+Qed.
+
+(* ========================================================================================== *)
+(* 11. examples: the hypotheses are satisfiable (toy hashes, B = 2, k = 1, pl = 4)             *)
+(* ========================================================================================== *)
+
+Module CreatorsProofsExamples.
+Import CreatorsExamples.
+Import String.StringSyntax.
+
+Example ex_tree_wf : wf_node ex_tree.
+Proof. apply wf_nodeb_sound. vm_compute. reflexivity. Qed.
+
+Example ex_tree_has_file : has_file ex_tree.
+Proof. unfold has_file. vm_compute. discriminate. Qed.
+
+Example ex_tree_perm : node_perm ex_tree ex_tree'.
+Proof.
+  unfold ex_tree, ex_tree'.
+  eapply np_dir.
+  - apply ep_cons; [apply node_perm_refl|]. apply ep_cons; [apply node_perm_refl|].
+    apply ep_cons; [|apply ep_nil].
+    eapply np_dir; [|apply perm_swap].
+    apply ep_cons; [apply node_perm_refl|]. apply ep_cons; [apply node_perm_refl|apply ep_nil].
+  - eapply perm_trans; [apply perm_skip, perm_swap|apply perm_swap].
+Qed.
+
+(* T1 instantiated *)
+Example ex_T1_assembler :
+  create_assembler T1 T256 2 true ex_opts (bs "r") 4 ex_tree =
+  create_assembler T1 T256 2 true ex_opts (bs "r") 4 ex_tree'.
+Proof. apply create_assembler_enum_irrelevant; [exact ex_tree_perm|exact ex_tree_wf]. Qed.
+
+Example ex_T1_v1 :
+  create_v1 T1 false ex_opts (bs "r") (bs "r") 4 ex_tree =
+  create_v1 T1 false ex_opts (bs "r") (bs "r") 4 ex_tree'.
+Proof. apply create_v1_enum_irrelevant; [exact ex_tree_perm|exact ex_tree_wf]. Qed.
+
+(* T5 instantiated: B = 2 > 0, pl = 4 = 2 * 2^1 *)
+Example ex_T5 :
+  create_assembler T1 T256 2 true ex_opts (bs "r") 4 ex_tree =
+  create_hybrid_class T1 T256 2 ex_opts (bs "r") 4 ex_tree.
+Proof. apply (create_assembler_hybrid_agree T1 T256 2 (Nat.lt_0_succ 1) 1 4 eq_refl). Qed.
+
+(* T2 instantiated and computed *)
+Example ex_T2 :
+  info_get k_pieces (create_v1 T1 false ex_opts (bs "r") (bs "r") 4 ex_tree) =
+  Some (BStr (bs "<xyzh><ello><0123><4567><89>")).
+Proof.
+  unfold ex_tree. rewrite create_v1_dir_pieces; [|lia|exact ex_tree_has_file].
+  vm_compute. reflexivity.
+Qed.
+End CreatorsProofsExamples.
+
+(* ========================================================================================== *)
+(* 12. assumptions                                                                             *)
+(* ========================================================================================== *)
+Print Assumptions create_assembler_v2_agree.
+Print Assumptions create_assembler_hybrid_agree.
+Print Assumptions traverse_enum_irrelevant.
+Print Assumptions filelist_total_enum_irrelevant.
+Print Assumptions create_v1_enum_irrelevant.
+Print Assumptions create_v2_class_enum_irrelevant.
+Print Assumptions create_hybrid_class_enum_irrelevant.
+Print Assumptions create_assembler_enum_irrelevant.
+Print Assumptions filelist_total_files.
+Print Assumptions flt_paths_NoDup.
+Print Assumptions create_v1_dir_files.
+Print Assumptions create_v1_dir_pieces.
+Print Assumptions create_v1_dir_aligned.
+Print Assumptions create_v1_single_file.
+Print Assumptions traverse_spec.
+Print Assumptions wf_nodeb_sound.
